@@ -166,6 +166,7 @@ func init() {
 				return marks(s, "relay:multi-recipient") && refused > 0
 			})
 		partConcurrent(c, a, "C02")
+		partLagging(c, a)
 		return a.finish(c)
 	}
 	registry["C04"] = func(c *check.Ctx) int {
